@@ -9,6 +9,8 @@ import (
 	"os"
 	"time"
 
+	"github.com/deckhouse/deckhouse/pkg/log"
+
 	"github.com/flant/shell-operator/pkg/task"
 	"github.com/flant/shell-operator/pkg/task/queue"
 )
@@ -16,6 +18,9 @@ import (
 func init() {
 	// TaskQueue.MeasureActionTime needs a metric storage unless this is set.
 	os.Setenv("QUEUE_ACTIONS_METRICS", "no")
+	if os.Getenv("VERIF_LOG") == "" {
+		log.SetDefault(log.NewNop())
+	}
 }
 
 // Ceiling is the time a failing case waits before giving up on an expected handler call.
